@@ -516,64 +516,76 @@ func c06Fn(c *Ctx, R, pkg, name string) *ssa.Function {
 
 func c06R2Memory(c *Ctx) {
 	const R = "C06.R2.refuse-before-mutate"
-	c.Expect(R, 36) // 38 on the pinned tree; the fast pre-check in cas.Memory.Push is optional
+	c.Expect(R, 36) // 38 on the pinned tree
 	fn := c06Fn(c, R, "internal/cas", "Memory.Push")
 	if fn == nil {
 		return
 	}
 	tn := FnName(fn)
+	onMap := func(call ssa.CallInstruction) bool {
+		a := call.Common().Args
+		return len(a) > 0 && c05IsFieldAddrOf(a[0], "~/internal/cas.Memory", "content")
+	}
+	// instructions of Push that write the map, directly or through a helper
 	var writers []ssa.Instruction
-	var loads, los []ssa.CallInstruction
-	for _, u := range c05FieldUses([]*ssa.Function{fn}, "~/internal/cas.Memory", "content") {
-		call, ok := u.Use.(ssa.CallInstruction)
-		if !ok {
-			continue
+	for _, call := range Calls(fn, func(string) bool { return true }) {
+		n := CalleeName(call)
+		if onMap(call) && (c05SyncMapWriters[n] || c05SyncMapRemovers[n]) {
+			writers = append(writers, call.(ssa.Instruction))
+		} else if h := c05Helper(call, fn); h != nil && reachesCall(h, 2, func(n string, cc ssa.CallInstruction) bool {
+			return onMap(cc) && (c05SyncMapWriters[n] || c05SyncMapRemovers[n])
+		}) {
+			writers = append(writers, call.(ssa.Instruction))
 		}
-		switch n := CalleeName(call); {
-		case n == "(*sync.Map).LoadOrStore":
-			los = append(los, call)
-			writers = append(writers, call.(ssa.Instruction))
-		case c05SyncMapWriters[n] || c05SyncMapRemovers[n]:
-			writers = append(writers, call.(ssa.Instruction))
-		case n == "(*sync.Map).Load":
-			loads = append(loads, call)
+	}
+	resultFact := func(method string, idx int) c05BoolFact {
+		return func(g *ssa.Function) (te, fe []Edge, isVal func(ssa.Value) bool) {
+			vals := map[ssa.Value]bool{}
+			for _, call := range CallsTo(g, method) {
+				if !onMap(call) {
+					continue
+				}
+				if r := ResultOf(call, idx); r != nil {
+					for a := range Aliases(r) {
+						vals[a] = true
+					}
+				}
+			}
+			te, fe = BoolTests(g, vals)
+			return te, fe, func(v ssa.Value) bool { return vals[v] }
 		}
 	}
 	// fast check (optional optimisation): if present it must refuse correctly
-	for _, ld := range loads {
-		if ex := ResultOf(ld, 1); ex != nil {
-			te, _ := BoolTests(fn, Aliases(ex))
-			if len(te) == 0 {
-				continue
+	if present, _ := c05BoolEdges(fn, resultFact("(*sync.Map).Load", 1), 0); len(present) > 0 {
+		ok, why := c06Refusal(c, fn, present, "~/errdef.ErrAlreadyExists", writers)
+		c.Check(R, tn+"|fast-check-refuses", fn.Pos(), ok, why)
+	}
+	nLOS := 0
+	for _, e := range c05TreeEnvs(c05Root(fn), 3) {
+		for _, call := range CallsTo(e.Fn, "(*sync.Map).LoadOrStore") {
+			if onMap(call) {
+				nLOS++
+				if ResultOf(call, 1) == nil {
+					c.Violation(R, tn+"|loaded-branch-refuses", call.Pos(), "the `loaded` result of LoadOrStore is discarded: a push of existing content reports success")
+				}
 			}
-			ok, why := c06Refusal(c, fn, te, "~/errdef.ErrAlreadyExists", writers)
-			c.Check(R, tn+"|fast-check-refuses", ld.Pos(), ok, why)
 		}
 	}
-	if len(los) == 0 {
-		c.Undecided(R, tn+"|loaded-branch-refuses", fn.Pos(), "Push no longer publishes with LoadOrStore: the atomic refuse-or-store step is not recognised")
+	if nLOS == 0 {
+		c.Undecided(R, tn+"|loaded-branch-refuses", fn.Pos(), "Push no longer publishes with LoadOrStore (neither itself nor in a helper): the atomic refuse-or-store step is not recognised")
 		return
 	}
-	var stored []Edge
-	for _, lo := range los {
-		ld := ResultOf(lo, 1)
-		if ld == nil {
-			c.Violation(R, tn+"|loaded-branch-refuses", lo.Pos(), "the `loaded` result of LoadOrStore is discarded: a push of existing content reports success")
-			continue
-		}
-		te, fe := BoolTests(fn, Aliases(ld))
-		stored = append(stored, fe...)
-		ok, why := c06Refusal(c, fn, te, "~/errdef.ErrAlreadyExists", nil)
-		c.Check(R, tn+"|loaded-branch-refuses", lo.Pos(), ok, why)
-	}
-	ok := true
+	loaded, stored := c05BoolEdges(fn, resultFact("(*sync.Map).LoadOrStore", 1), 0)
+	ok, why := c06Refusal(c, fn, loaded, "~/errdef.ErrAlreadyExists", nil)
+	c.Check(R, tn+"|loaded-branch-refuses", fn.Pos(), ok, why)
+	ok2 := len(stored) > 0
 	for _, a := range c05MaybeNilAtoms(fn) {
 		if !c05AtomMustPass(a, newCut().Edges(stored...)) {
-			ok = false
+			ok2 = false
 		}
 	}
-	c.Check(R, tn+"|nil-only-when-stored", fn.Pos(), ok,
-		ifelse(ok, "every nil return lies behind the loaded==false edge of LoadOrStore", "Push can return nil although LoadOrStore did not store (existing content reported as freshly pushed)"))
+	c.Check(R, tn+"|nil-only-when-stored", fn.Pos(), ok2,
+		ifelse(ok2, "every nil return lies behind the loaded==false edge of LoadOrStore", "Push can return nil although LoadOrStore did not store (existing content reported as freshly pushed)"))
 }
 
 // ---------------------------------------------------------------- R2: oci.Storage.Push
@@ -656,13 +668,26 @@ func c06R2File(c *Ctx) {
 				}
 			}
 		}
-		var dupE, freeE []Edge
+		// "the name is already claimed": a test of nameStatus.exists, here or in a boolean helper
+		claimed := func(g *ssa.Function) (te, fe []Edge, isVal func(ssa.Value) bool) {
+			isLoad := func(v ssa.Value) bool {
+				u, ok := v.(*ssa.UnOp)
+				return ok && u.Op == token.MUL && c05IsFieldAddrOf(u.X, "~/content/file.nameStatus", "exists")
+			}
+			for _, i := range Ifs(g) {
+				cond, t, f := ifEdges(i)
+				if isLoad(cond) {
+					te, fe = append(te, t), append(fe, f)
+				}
+			}
+			return te, fe, isLoad
+		}
+		dupE, freeE := c05BoolEdges(fn, claimed, 0)
+		// the per-name lock: receivers of Lock() on a nameStatus
 		statusBases := map[string]bool{}
-		for _, i := range Ifs(fn) {
-			cond, t, f := ifEdges(i)
-			if u, ok := cond.(*ssa.UnOp); ok && u.Op == token.MUL && c05IsFieldAddrOf(u.X, "~/content/file.nameStatus", "exists") {
-				dupE, freeE = append(dupE, t), append(freeE, f)
-				statusBases[accessPath(u.X.(*ssa.FieldAddr).X)] = true
+		for _, call := range CallsTo(fn, "(*sync.RWMutex).Lock", "(*sync.Mutex).Lock") {
+			if fa, ok := call.Common().Args[0].(*ssa.FieldAddr); ok && strings.HasPrefix(fieldName(fa.X.Type(), fa.Field), "~/content/file.nameStatus.") {
+				statusBases[accessPath(fa.X)] = true
 			}
 		}
 		ok, why := c06Refusal(c, fn, dupE, "~/content/file.ErrDuplicateName", effects)
